@@ -9,6 +9,7 @@ request, every clock value, and every cache content.  `step` follows the
 **repaired** `_send_data_and_empty_cache`; `stepPinned` is the pinned tree.
 -/
 import RB.Proofs.Lemmas.DB
+import RB.Proofs.Lemmas.DBv2
 
 namespace RB.DB
 
@@ -194,6 +195,26 @@ with criterion, unit and value, in order), for every cache -/
 theorem c17_decode_encode_v1 (c : Cache) : decodeV1 (encodeV1 c) = some c := by
   have := (encRuns1_spec [] c).2 []
   simpa [decodeV1, encodeV1] using this
+
+/-- API v2: the value the payload holds for (run, invocation, iteration, criterion)
+is exactly the value the cache holds for it — nothing lost, nothing invented,
+nothing moved — for caches in the shape the adapters produce (C12): per run the
+data points are in strictly increasing (invocation, iteration) order with
+iterations ≥ 1, and a data point names each criterion at most once.  Criteria
+sets may be sparse and differ between data points (null padding). -/
+theorem c17_decode_encode_v2 (c : Cache) (h : wellShaped c) (r : Run) (inv it : Nat) (cr : Crit) :
+    lookupV2 (encodeV2 c) r inv it cr = lookupCache c r inv it cr :=
+  encodeV2_lookup c h r inv it cr
+
+-- non-vacuity: sparse, differing criteria sets over two invocations
+example : wellShaped [(0, [⟨1, 1, [⟨("total", "ms"), 5⟩]⟩, ⟨1, 2, [⟨("mem", "kb"), 7⟩, ⟨("total", "ms"), 6⟩]⟩,
+                           ⟨2, 1, [⟨("gc", "ms"), 1⟩]⟩]),
+                      (1, [⟨1, 2, [⟨("gc", "ms"), 9⟩]⟩])] := by
+  decide
+-- without the shape the payload moves values: a repeated iteration number
+example : lookupV2 (encodeV2 [(0, [⟨1, 1, [⟨("t", "ms"), 5⟩]⟩, ⟨1, 1, [⟨("t", "ms"), 6⟩]⟩])]) 0 1 2 ("t", "ms")
+    ≠ lookupCache [(0, [⟨1, 1, [⟨("t", "ms"), 5⟩]⟩, ⟨1, 1, [⟨("t", "ms"), 6⟩]⟩])] 0 1 2 ("t", "ms") := by
+  decide
 
 /-- every request of a session carries the session's start time, environment and
 source details, the API version asked for, and covers exactly the cache content
